@@ -386,6 +386,110 @@ func runActorViews(c *ACase) {
 			c.Obs = append(c.Obs, o)
 		}
 	}
+	// ---- persistent actors, attached once as production does (the adapter is built on the engine's own table)
+	type preq struct {
+		at     int64 // ms since the history began
+		v      *PView
+		gp     int
+		gs     *pokerface.GameState
+		arming bool // arms the thinking-time wait (anything but a pass, which is answered at once)
+	}
+	type pslot struct {
+		id    int
+		calls []ACall // DelayMs = ms since the history began
+		ad    *recAdapter
+		reqs  []preq
+	}
+	t00 := time.Now()
+	prs := map[int]*pslot{}
+	type oslot struct {
+		ad    actor.Adapter
+		views []*pt.Table
+	}
+	var pobs *oslot
+	persistent := func(t *pt.Table) {
+		gs := t.State.GameState
+		// player runners (status running) that live through the whole history: a new request calls the pending wait off,
+		// and a wait that was called off must not act
+		if gs != nil && t.State.Status == pt.TableStateStatus_TableGamePlaying {
+			for gp, p := range gs.Players {
+				if len(p.AllowedActions) == 0 {
+					continue
+				}
+				id := idOf(d.playerIDAt(gp))
+				sl := prs[id]
+				if sl == nil {
+					sl = &pslot{id: id}
+					sl.ad = &recAdapter{inner: actor.NewTableEngineAdapter(d.te, nil), mu: &mu, calls: &sl.calls, t0: t00}
+					a := actor.NewActor()
+					a.SetAdapter(sl.ad)
+					a.SetRunner(actor.NewPlayerRunner(pid(id)))
+					prs[id] = sl
+				}
+				sl.reqs = append(sl.reqs, preq{at: time.Since(t00).Milliseconds(), v: pviewOf(gs, gp), gp: gp, gs: relabel(gs, "", ""), arming: !gs.HasAction(gp, "pass")})
+				sl.ad.UpdateTableState(t)
+			}
+		}
+		// an observer attached the way production attaches one: the adapter is built on the table object the engine hands out, and
+		// that same object is then delivered (twice: a replay after a reconnect), and now and then two views arrive at the same moment
+		// from several goroutines.  A stand-in object with the engine's content plays the engine's table, so that a leak shows as a
+		// change of the stand-in instead of corrupting the running hand.
+		eng, err := t.Clone()
+		if err != nil {
+			return
+		}
+		pobs = &oslot{}
+		calls := []ACall{}
+		pobs.ad = &recAdapter{inner: actor.NewTableEngineAdapter(d.te, eng), mu: &mu, calls: &calls, t0: time.Now()}
+		a := actor.NewActor()
+		a.SetAdapter(pobs.ad)
+		ob := actor.NewObserverRunner()
+		ob.OnTableStateUpdated(func(v *pt.Table) {
+			mu.Lock()
+			pobs.views = append(pobs.views, v)
+			mu.Unlock()
+		})
+		a.SetRunner(ob)
+		h0 := jsonHash(eng)
+		pre := ogameOf(gs)
+		filtered := t.State.Status == pt.TableStateStatus_TableGamePlaying || t.State.Status == pt.TableStateStatus_TableGameSettled
+		pobs.ad.UpdateTableState(eng)
+		pobs.ad.UpdateTableState(eng)
+		nseq := 2
+		if last != nil && filtered && sampleRNG.Chance(1, 4) {
+			var wg sync.WaitGroup
+			start := make(chan struct{})
+			for k := 0; k < 6; k++ {
+				x := eng
+				if k%2 == 1 {
+					x = last
+				}
+				wg.Add(1)
+				go func(x *pt.Table) {
+					defer wg.Done()
+					<-start
+					for rep := 0; rep < 2; rep++ {
+						pobs.ad.UpdateTableState(x)
+					}
+				}(x)
+			}
+			close(start)
+			wg.Wait()
+		}
+		h1 := jsonHash(eng)
+		mu.Lock()
+		views := append([]*pt.Table{}, pobs.views...)
+		mu.Unlock()
+		for k, v := range views {
+			o := AObs{Kind: "observer", System: false, Filtered: filtered, Pre: pre, View: ogameOf(v.State.GameState), EngineSame: h0 == h1, OthersSame: true, TableStat: string(t.State.Status)}
+			if k >= nseq {
+				// concurrent deliveries: which of the views this is cannot be told; it must hide everything whichever it is
+				o.Pre = o.View
+				o.Filtered = true
+			}
+			c.Obs = append(c.Obs, o)
+		}
+	}
 	d.tap = func(t *pt.Table) {
 		defer func() {
 			if rec := recover(); rec != nil {
@@ -395,9 +499,13 @@ func runActorViews(c *ACase) {
 			}
 		}()
 		feed(t, false)
-		if last != nil && sampleRNG.Chance(1, 5) {
+		if sampleRNG.Chance(1, 6) {
+			feed(t, true) // the very same view delivered again
+		}
+		if last != nil && sampleRNG.Chance(1, 6) {
 			feed(last, true) // an old view delivered again
 		}
+		persistent(t)
 		if cp, err := t.Clone(); err == nil {
 			last = cp
 		}
@@ -428,6 +536,59 @@ func runActorViews(c *ACase) {
 		}
 	}
 	d.tap = nil
+	// the last request of every persistent player runner is allowed to run its course
+	time.Sleep(time.Duration(set.Meta.ActionTime)*time.Second + 600*time.Millisecond)
+	// every recorded call is attributed to the request whose wait it ends: a wait runs its full thinking time unless a newer
+	// arming request called it off (the time bank holds one task); a pass is answered at once
+	at := int64(set.Meta.ActionTime) * 1000
+	for _, sl := range prs {
+		mu.Lock()
+		calls := append([]ACall{}, sl.calls...)
+		mu.Unlock()
+		attached := make([][]ACall, len(sl.reqs))
+		superseded := make([]bool, len(sl.reqs))
+		for i, q := range sl.reqs {
+			if !q.arming {
+				continue
+			}
+			for j := i + 1; j < len(sl.reqs); j++ {
+				if sl.reqs[j].arming && sl.reqs[j].at < q.at+at-100 {
+					superseded[i] = true
+				}
+			}
+		}
+		for _, cl := range calls {
+			best := -1
+			for i, q := range sl.reqs {
+				if q.arming && !superseded[i] && cl.DelayMs >= q.at+at-20 && cl.DelayMs <= q.at+at+450 {
+					best = i
+				}
+				if !q.arming && cl.Action == "pass" && cl.DelayMs >= q.at && cl.DelayMs <= q.at+450 {
+					best = i
+				}
+			}
+			if best == -1 {
+				// belongs to no wait that was allowed to run out: charge it to the latest request before it
+				for i, q := range sl.reqs {
+					if q.at <= cl.DelayMs {
+						best = i
+					}
+				}
+			}
+			if best >= 0 {
+				cl.DelayMs -= sl.reqs[best].at
+				cl.Accepted = tryOnEngine(sl.reqs[best].gs, sl.reqs[best].gp, cl)
+				attached[best] = append(attached[best], cl)
+			}
+		}
+		for i, q := range sl.reqs {
+			o := AObs{Kind: "player", Player: sl.id, Status: "running", ActionTime: set.Meta.ActionTime, V: q.v, Calls: attached[i], TableStat: "table_game_playing"}
+			if superseded[i] {
+				o.Status = "superseded"
+			}
+			c.Obs = append(c.Obs, o)
+		}
+	}
 	pending.Wait()
 	c.Settled = d.Abs().GameCount
 }
@@ -651,6 +812,9 @@ func (o AObs) Coq() string {
 		}
 		return fmt.Sprintf("OBot (mkbv %v %v %v %v %v %v %v) %s %s %d", o.B.AtTable, o.B.SatIn, o.B.HasGame, o.B.NewGame, o.B.Fresher, o.B.Playing, o.B.DealtIn, v, coqCalls(o.Calls), o.AutoJoin)
 	case "player":
+		if o.Status == "superseded" {
+			return fmt.Sprintf("OSuperseded %s %s", o.V.Coq(), coqCalls(o.Calls))
+		}
 		st := map[string]string{"running": "PRunning", "idle": "PIdle", "suspended": "PSuspended"}[o.Status]
 		return fmt.Sprintf("OPlayer %s %s %s %s", st, coqZi(o.ActionTime), o.V.Coq(), coqCalls(o.Calls))
 	}
